@@ -48,6 +48,9 @@ KindTable ==
                    JObj(<<KV("k", SA)>>), JObj(<<KV("k", SB), KV("j", SA)>>), ""),
     date     |-> K([type |-> <<"string">>, format |-> "date"], JFmt("date"), JFmt("date"), "DefaultOnFormat"),
     datetime |-> K([type |-> <<"string">>, format |-> "date-time"], JFmt("date-time"), JFmt("date-time"), "DefaultOnFormat"),
+    anyzero  |-> K([type |-> <<>>], JNum(0), JBool(FALSE), ""),          \* untyped: interface{} field, zero-like defaults
+    anyval   |-> K([type |-> <<>>], JNum(4), SA, ""),
+    multi    |-> K([type |-> <<"number", "string">>], JStr(<<>>), JNum(6), ""),
     sized    |-> [K(("type" :> <<"integer">>) @@ ("minimum" :> JNum(0)) @@ ("maximum" :> JNum(40)), JNum(20), JNum(40), "")
                   EXCEPT !.sized = TRUE] ]
 Kinds == DOMAIN KindTable \cup {"objref"}
